@@ -115,5 +115,45 @@ def gen_purity_init() -> str:
     # ---- TMS PDU types: (is control message, 4 bit type)
     o.append("/-- `TMSPDUType`: (name, is control message, type bits) -/")
     o.append("def tmsPduTypes : List (String × Bool × Nat) := [" + ", ".join(f"({lstr(m.name)}, {lbool(m.value[0])}, {m.value[1]})" for m in TMSPDUType) + "]\n")  # noqa: F821
+    # ---- element Enums (etsi layer2 / layer3 element packages): what every member serialises to
+    o.append("/-- `<member>.as_bits()` of every Enum with `as_bits` in the etsi layer2 / layer3 element packages, found by introspection:")
+    o.append("(`<module>.<Class>`, per member in definition order (name of the exception it raises or \"\", bits)) -/")
+    rows = []
+    for key, members in element_bits():
+        rows.append(f"  ({lstr(key)}, [" + ", ".join(f"({lstr(err)}, {lbits(bits)})" for err, bits in members) + "])")  # noqa: F821
+    o.append("def elementBits : List (String × List (String × List Bool)) := [\n" + ",\n".join(rows) + "]\n")
     o.append("end Dmr.Gen.PurityInit\n")
     return "\n".join(o)
+
+
+ELEMENT_PKGS = ("okdmr.dmrlib.etsi.layer2.elements", "okdmr.dmrlib.etsi.layer3.elements")
+
+
+def element_bits():
+    """[(`<module>.<Class>`, [(exception name or "", bits of member.as_bits())])], sorted by key; the same walk as
+    harness/props/c19_worker.py `element_enums`"""
+    import enum
+    import importlib
+    import pkgutil
+
+    from bitarray import bitarray
+
+    out = []
+    for pkgname in ELEMENT_PKGS:
+        pkg = importlib.import_module(pkgname)
+        for mi in sorted(pkgutil.iter_modules(pkg.__path__), key=lambda m: m.name):
+            mod = importlib.import_module(f"{pkgname}.{mi.name}")
+            for cname, cls in sorted(vars(mod).items()):
+                if not (isinstance(cls, type) and cls.__module__ == mod.__name__ and issubclass(cls, enum.Enum) and callable(getattr(cls, "as_bits", None))):
+                    continue
+                members = []
+                for m in cls:
+                    try:
+                        b = m.as_bits()
+                        if not isinstance(b, bitarray):
+                            raise TypeError("as_bits did not return a bitarray")
+                        members.append(("", bitarray(b)))
+                    except Exception as e:  # noqa
+                        members.append((type(e).__name__, bitarray()))
+                out.append((f"{mi.name}.{cname}", members))
+    return sorted(out, key=lambda x: x[0])
